@@ -92,3 +92,167 @@ class C13Bounded(Bounded):
         return {"evaluations": ev, "distinct_nontrivial": nontriv, "failures": fails, "failure_counts": seen,
                 "bound": f"{len(rg)} rule-condition groups x {len(dg)} detection-item groups x {len(fg)} field-name groups" + (" (every 41st)" if tier == "quick" else ""),
                 "rule": "distinct items; non-trivial = applies to at least one field", "samples": samples, "exhaustive": tier != "quick"}
+
+
+# ----------------------------------------------------------------------------------------------- built-in conditions, one at a time
+RULE2 = {"title": "t2", "id": "9a0ab1b9-1a0b-4b1a-8a1b-0123456789ab", "status": "test", "level": "high", "date": "2023-05-17", "author": "me", "references": ["https://a", "https://b"],
+         "tags": ["attack.t1059", "attack.execution"], "myint": 5, "mystr": "AbC", "mylist": ["a", "b"], "logsource": {"category": "c", "product": "p", "service": "s"},
+         "detection": {"sel": {"f": ["a*", "b"], "g|re": "^x.*$", "n": 5, "z": None, "h|fieldref": "f"}, "nest": [{"k": "v"}, {"k2": "v2"}], "condition": "sel or nest"}}
+LEVELS = ["informational", "low", "medium", "high", "critical"]
+STATUSES = ["unsupported", "deprecated", "experimental", "test", "stable"]
+CMP = {"eq": lambda a, b: a == b, "ne": lambda a, b: a != b, "gte": lambda a, b: a >= b, "gt": lambda a, b: a > b, "lte": lambda a, b: a <= b, "lt": lambda a, b: a < b}
+
+
+def attr_oracle(attribute, value, op):
+    """documented meaning of rule_attribute on RULE2: True / False / 'error' (configuration error) / None (not specified here)"""
+    import datetime
+    doc = RULE2
+    if attribute not in doc and attribute != "no_such":
+        return None
+    if attribute == "no_such":
+        return False
+    v = doc[attribute]
+    if isinstance(v, list):
+        return {"in": value in v, "not_in": value not in v, "eq": False, "ne": True}.get(op, False)
+    if op in ("in", "not_in"):
+        return "error" if attribute in ("mystr", "author", "id", "title") else None
+    if attribute in ("mystr", "author", "id", "title"):
+        return CMP[op](v, value) if op in ("eq", "ne") else "error"
+    if attribute == "myint":
+        try:
+            return CMP[op](float(v), float(value))
+        except ValueError:
+            return "error"
+    if attribute == "date":
+        if not isinstance(value, str):
+            return "error"
+        try:
+            return CMP[op](datetime.date.fromisoformat(v), datetime.date.fromisoformat(value))
+        except ValueError:
+            return "error"
+    table = LEVELS if attribute == "level" else STATUSES
+    if not isinstance(value, str) or value.lower() not in table:
+        return "error"
+    return CMP[op](table.index(v), table.index(value.lower()))
+
+
+@register
+class C13BuiltinConditions(Bounded):
+    """every built-in rule / detection-item / field-name condition type, configured one at a time on a marker item, against the documented
+    meaning evaluated on the rule DOCUMENT"""
+    id = "C13.bounded.builtin_conditions"
+    props = ("C13",)
+
+    def run(self, tier, seed):
+        from sigma.collection import SigmaCollection
+        from sigma.backends.test import TextQueryTestBackend
+        from sigma.processing.pipeline import ProcessingPipeline
+        from sigma.exceptions import SigmaConfigurationError, SigmaError
+        ev = nontriv = 0
+        fails, samples, seen = [], [], {}
+
+        def fail(kind, text, inp):
+            seen[kind] = seen.get(kind, 0) + 1
+            if seen[kind] <= 2:
+                fails.append({"text": text, "input": inp})
+
+        def run_item(item, state=None):
+            """which of the fields f g n z h k k2 carry the marker prefix after the item ran; 'error' for a configuration error"""
+            items = ([{"type": "set_state", "key": k, "val": v} for k, v in (state or {}).items()]) + [dict(item, id="marked", type="field_name_prefix", prefix="X_")]
+            try:
+                q = TextQueryTestBackend(ProcessingPipeline.from_dict({"transformations": items})).convert(SigmaCollection.from_dicts([copy.deepcopy(RULE2)]))[0]
+            except SigmaConfigurationError:
+                return "error"
+            import re as _re
+            return {m.group(2) for m in _re.finditer(r"(?<!\w)(X_)?(f|g|n|z|h|k2|k)(?==| in | is )", q) if m.group(1)}
+        ALL = {"f", "g", "n", "z", "h", "k", "k2"}
+        # ---- rule_attribute
+        values = {"level": ["high", "HIGH", "low", "critical", "bogus", 3], "status": ["test", "stable", "deprecated", "Test", "nope"], "date": ["2023-05-17", "2023-05-18", "2022-12-31", "17.05.2023", 20230517],
+                  "myint": [5, "5", 4, "6.5", "abc"], "mystr": ["AbC", "abc", "x"], "author": ["me", "you"], "mylist": ["a", "c"], "references": ["https://a", "https://zz"], "no_such": ["x"],
+                  "id": ["9a0ab1b9-1a0b-4b1a-8a1b-0123456789ab", "9a0ab1b9-1a0b-4b1a-8a1b-0123456789ac"]}
+        for attribute, vals in values.items():
+            for value, op in itertools.product(vals, ("eq", "ne", "gte", "gt", "lte", "lt", "in", "not_in")):
+                want = attr_oracle(attribute, value, op)
+                if want is None:
+                    continue
+                ev += 1
+                nontriv += 1
+                try:
+                    got = run_item({"rule_conditions": [{"type": "rule_attribute", "attribute": attribute, "value": value, "op": op}]})
+                except Exception as e:
+                    got = f"{type(e).__name__}: {e}"
+                exp = "error" if want == "error" else (ALL if want else set())
+                if got != exp:
+                    fail("rule_attribute", f"rule_attribute {attribute} {op} {value!r} on a rule with {attribute} = {RULE2.get(attribute)!r}: item applied to {got if isinstance(got, str) else sorted(got)}, documented meaning: {'configuration error' if want == 'error' else want}", [attribute, op, value])
+        # ---- other rule conditions
+        rc = [({"type": "tag", "tag": "attack.t1059"}, True), ({"type": "tag", "tag": "attack.t1060"}, False), ({"type": "tag", "tag": "attack.execution"}, True),
+              ({"type": "contains_field", "field": "k2"}, True), ({"type": "contains_field", "field": "K2"}, False), ({"type": "contains_field", "field": "v2"}, False),
+              ({"type": "contains_detection_item", "field": "k2", "value": "v2"}, True), ({"type": "contains_detection_item", "field": "k2", "value": "v"}, False),
+              ({"type": "contains_detection_item", "field": "n", "value": 5}, True), ({"type": "contains_detection_item", "field": "n", "value": "5"}, False),
+              ({"type": "contains_detection_item", "field": "f", "value": "b"}, True), ({"type": "contains_detection_item", "field": "f", "value": "a*"}, True),
+              ({"type": "contains_detection_item", "field": "f", "value": "a"}, False), ({"type": "contains_detection_item", "field": "k", "value": "v2"}, False),
+              ({"type": "logsource", "category": "c", "product": "p", "service": "s"}, True), ({"type": "logsource", "service": "other"}, False),
+              ({"type": "is_sigma_rule"}, True), ({"type": "is_sigma_correlation_rule"}, False),
+              ({"type": "processing_state", "key": "k", "val": "v"}, ("state", {"k": "v"}, True)), ({"type": "processing_state", "key": "k", "val": "v"}, ("state", {"k": "w"}, False)),
+              ({"type": "processing_state", "key": "k", "val": "v"}, ("state", {}, False)), ({"type": "processing_item_applied", "processing_item_id": "nobody"}, False)]
+        for cond, want in rc:
+            state = None
+            if isinstance(want, tuple):
+                _, state, want = want
+            for neg in (False, True):
+                ev += 1
+                nontriv += 1
+                try:
+                    got = run_item({"rule_conditions": [cond], **({"rule_cond_not": True} if neg else {})}, state)
+                except Exception as e:
+                    got = f"{type(e).__name__}: {e}"
+                exp = ALL if (want != neg) else set()
+                if got != exp:
+                    fail("rule-" + cond["type"], f"rule condition {cond}{' negated' if neg else ''}{' with state ' + str(state) if state is not None else ''}: item applied to {got if isinstance(got, str) else sorted(got)}, expected {sorted(exp)}", [cond, neg, state])
+        # ---- detection item conditions: which items of RULE2 they select
+        dc = [({"type": "match_string", "cond": "any", "pattern": "^b$"}, {"f"}), ({"type": "match_string", "cond": "all", "pattern": "^b$"}, set()), ({"type": "match_string", "cond": "all", "pattern": "^v"}, {"k", "k2"}),
+              ({"type": "match_string", "cond": "any", "pattern": "^v$", "negate": True}, {"f", "k2"}), ({"type": "match_string", "cond": "all", "pattern": "^a", "negate": True}, {"k", "k2"}),
+              ({"type": "contains_wildcard", "cond": "any"}, {"f"}), ({"type": "contains_wildcard", "cond": "all"}, set()), ({"type": "is_null", "cond": "all"}, {"z"}), ({"type": "is_null", "cond": "any"}, {"z"}),
+              ({"type": "match_value", "cond": "any", "value": 5}, {"n"}), ({"type": "match_value", "cond": "any", "value": "b"}, {"f"}), ({"type": "match_value", "cond": "all", "value": "v"}, {"k"}),
+              ({"type": "processing_item_applied", "processing_item_id": "nobody"}, set()), ({"type": "processing_state", "key": "k", "val": "v"}, ("state", {"k": "v"}, ALL)),
+              ({"type": "processing_state", "key": "k", "val": "v"}, ("state", {"k": 1}, set()))]
+        for cond, want in dc:
+            state = None
+            if isinstance(want, tuple):
+                _, state, want = want
+            for neg in (False, True):
+                ev += 1
+                nontriv += 1
+                try:
+                    got = run_item({"detection_item_conditions": [cond], **({"detection_item_cond_not": True} if neg else {})}, state)
+                except Exception as e:
+                    got = f"{type(e).__name__}: {e}"
+                exp = (ALL - want) if neg else want
+                if cond.get("negate") and isinstance(got, set):
+                    # the documentation leaves open what a negated pattern says about values that are not strings: compare string-valued items only
+                    got, exp = got & {"f", "k", "k2"}, exp & {"f", "k", "k2"}
+                if got != exp:
+                    fail("di-" + cond["type"], f"detection item condition {cond}{' negated' if neg else ''}: item applied to {got if isinstance(got, str) else sorted(got)}, expected {sorted(exp)}", [cond, neg])
+        # ---- field name conditions
+        fc = [({"type": "include_fields", "fields": ["f", "k2"]}, {"f", "k2"}), ({"type": "exclude_fields", "fields": ["f", "k2"]}, ALL - {"f", "k2"}), ({"type": "include_fields", "fields": ["k"]}, {"k"}),
+              ({"type": "include_fields", "fields": ["k.*"], "mode": "re"}, {"k", "k2"}), ({"type": "include_fields", "fields": ["^k$", "n|z"], "mode": "re"}, {"k", "n", "z"}), ({"type": "exclude_fields", "fields": ["k"], "mode": "re"}, ALL - {"k", "k2"}),
+              ({"type": "include_fields", "fields": ["K"]}, set()), ({"type": "include_fields", "fields": []}, set()), ({"type": "exclude_fields", "fields": []}, ALL),
+              ({"type": "processing_item_applied", "processing_item_id": "nobody"}, set()), ({"type": "processing_state", "key": "k", "val": "v"}, ("state", {"k": "v"}, ALL))]
+        for cond, want in fc:
+            state = None
+            if isinstance(want, tuple):
+                _, state, want = want
+            for neg in (False, True):
+                ev += 1
+                nontriv += 1
+                try:
+                    got = run_item({"field_name_conditions": [cond], **({"field_name_cond_not": True} if neg else {})}, state)
+                except Exception as e:
+                    got = f"{type(e).__name__}: {e}"
+                # h|fieldref: f - the item gate holds if the condition holds for the field OR for a field it refers to; the field itself is
+                # renamed only if the (possibly negated) condition also holds for its own name
+                exp = (ALL - want - ({"h"} if "f" in want else set())) if neg else want
+                if got != exp:
+                    fail("fn-" + cond["type"], f"field name condition {cond}{' negated' if neg else ''}: item applied to {got if isinstance(got, str) else sorted(got)}, expected {sorted(exp)}", [cond, neg])
+        return {"evaluations": ev, "distinct_nontrivial": nontriv, "failures": fails, "failure_counts": seen, "bound": "rule_attribute: 10 attributes x 2..6 values x 8 operators; 23 other rule conditions, 15 detection-item and 11 field-name conditions, each plain and negated",
+                "rule": "distinct (condition, negation); every one is non-trivial", "samples": samples, "exhaustive": True}
